@@ -104,6 +104,8 @@ type ResolverOpt struct {
 	FailoverTargets []string
 	// FailoverBySubset: subset -> datacenters (one failover entry per subset)
 	FailoverBySubset map[string][]string
+	// FailoverKey: the key of the service-form failover section (default "*": all subsets)
+	FailoverKey string
 }
 
 func Resolver(name string, o ResolverOpt) CE {
@@ -113,6 +115,9 @@ func Resolver(name string, o ResolverOpt) CE {
 	}
 	if o.Failover != "" || o.FailoverSubset != "" || len(o.FailoverDCs) > 0 {
 		lab += "|fo:" + o.Failover + "/" + o.FailoverSubset + strings.Join(o.FailoverDCs, ",")
+		if o.FailoverKey != "" {
+			lab += "@" + o.FailoverKey
+		}
 	}
 	if len(o.Subsets) > 0 {
 		lab += "{" + strings.Join(o.Subsets, ",") + "}"
@@ -143,13 +148,19 @@ func Resolver(name string, o ResolverOpt) CE {
 			r.Redirect = &structs.ServiceResolverRedirect{Service: o.Redirect, ServiceSubset: o.RedirectSubset}
 		}
 		if o.Failover != "" || o.FailoverSubset != "" || len(o.FailoverDCs) > 0 {
-			r.Failover = map[string]structs.ServiceResolverFailover{"*": {Service: o.Failover, ServiceSubset: o.FailoverSubset, Datacenters: o.FailoverDCs}}
+			key := "*"
+			if o.FailoverKey != "" {
+				key = o.FailoverKey
+			}
+			r.Failover = map[string]structs.ServiceResolverFailover{key: {Service: o.Failover, ServiceSubset: o.FailoverSubset, Datacenters: o.FailoverDCs}}
 		}
 		if len(o.FailoverTargets) > 0 {
 			var ts []structs.ServiceResolverFailoverTarget
 			for _, t := range o.FailoverTargets {
 				if strings.HasPrefix(t, "peer:") {
 					ts = append(ts, structs.ServiceResolverFailoverTarget{Service: name, Peer: strings.TrimPrefix(t, "peer:")})
+				} else if k := strings.IndexByte(t, '/'); k > 0 {
+					ts = append(ts, structs.ServiceResolverFailoverTarget{Service: t[:k], ServiceSubset: t[k+1:]}) // "service/subset"
 				} else {
 					ts = append(ts, structs.ServiceResolverFailoverTarget{Service: t})
 				}
